@@ -76,4 +76,12 @@ def fix_name_segment (name_seg : Str) : Str :=
 def fix_field_path (field_path : Str) : Str :=
   (join (['.'] : Str) (((split field_path ['.'])).map fun name_seg_ => (fix_name_segment name_seg_)))
 
+-- gapic/schema/wrappers.py — FieldHeader.disambiguated
+def field_header_disambiguated (self_raw : Str) : Str :=
+  (join (['.'] : Str) (((split self_raw ['.'])).map fun segment_ => (if (strIn segment_ (GapicModel.Pinned.reservedNames.map String.toList)) then (segment_ ++ (['_'] : Str)) else segment_)))
+
+-- gapic/schema/wrappers.py — RoutingParameter.disambiguated_field
+def routing_param_disambiguated_field (self_field : Str) : Str :=
+  (join (['.'] : Str) (((split self_field ['.'])).map fun segment_ => (if (strIn segment_ (GapicModel.Pinned.reservedNames.map String.toList)) then (segment_ ++ (['_'] : Str)) else segment_)))
+
 end GapicModel.Generated.Funcs
